@@ -331,6 +331,11 @@ func ruleR20_1(w *World, r *Report) {
 				bad = calleeName(c)
 			}
 		}
+		for _, a := range bufferAppends(bt) {
+			if lock == nil || !instrDominates(lock, a) {
+				bad = "the append to the transaction buffer"
+			}
+		}
 		r.Check(bad == "", "BeginTransaction/identifier after the lock", u.Pos(bt.Pos()), "the transaction operation is numbered and queued after the lock is taken", bad+" runs before the datatype lock is taken: a transaction started while another goroutine's transaction is open takes an identifier smaller than operations queued before it")
 	}
 	if ul := u.Fn(pDatatypes, "TransactionDatatype", "unlock"); ul != nil {
